@@ -433,6 +433,9 @@ private:
                                 .count())
       : std::numeric_limits<uint64_t>::max();
 
+    // pick up contexts registered before ts_now was taken
+    _update_active_thread_contexts_cache();
+
     size_t cached_transit_events_count{0};
 
     for (ThreadContext* thread_context : _active_thread_contexts_cache)
